@@ -387,7 +387,7 @@ func c05Run(w *run.Worker) {
 	}
 	// (E) string literals: every body over the bytes the string lexer and the
 	// unquoting step branch on, between each quote style, alone and in context
-	strSyms := []string{"a", "\n", "\r", "\\", "\"", "'", "`", "é", "\x80", "n"}
+	strSyms := []string{"a", "\n", "\r", "\\", "\"", "'", "`", "é", "\x80", "n", "\x00"}
 	strMax := 4
 	if w.Thorough {
 		strMax = 5
@@ -401,6 +401,7 @@ func c05Run(w *run.Worker) {
 			for _, q := range quotes {
 				c05One(w, "strings", "x = "+q[0]+b+q[1])
 				c05One(w, "strings", "f("+q[0]+b+q[1]+", 1)\ny = 2")
+				c05One(w, "strings", "`q r` = 1\nx = "+q[0]+b+q[1]) // after a back-quoted name
 			}
 		}
 		if n == strMax || w.Expired() {
@@ -525,7 +526,7 @@ func init() {
 		ID:    "C05",
 		Level: "model_checking",
 		Rule: "(A) every byte string of length <=4 (thorough <=5) over a 36-byte alphabet (one byte per lexer branch, incl. CR and invalid UTF-8 bytes); (B) every sequence of <=3 (thorough <=4) tokens from a 65-token alphabet (incl. Unicode blanks, letters that case-fold to ASCII, two-, three- and four-byte letters), written with and (up to 3 tokens) without blanks in between (every token kind and keyword, malformed numbers, unterminated strings, bad escapes); " +
-			"(C) 31 valid programs covering every production x every token position x {delete, duplicate, replace by each of the 56 tokens}, 1 deviation (thorough 2); (E) every string body of <=4 (thorough <=5) symbols over {a LF CR backslash \" ' ` é 0x80 n} between each of the 5 quote styles, as an assignment and as a call argument followed by another line; (D) nesting depth 10/100/10^4 (thorough 10^5) of every bracket, unary operator, call, index, attribute, block; (D2) 27 wide or deep forms (incl. long expressions in the positions whose diagnostics mention them: for-in variable, iterable, assignment target, named argument, map key, callee) at 1500 and 24000 elements: the bytes allocated by the parse grow at most 64-fold; " +
+			"(C) 31 valid programs covering every production x every token position x {delete, duplicate, replace by each of the 56 tokens}, 1 deviation (thorough 2); (E) every string body of <=4 (thorough <=5) symbols over {a LF CR backslash \" ' ` é 0x80 n NUL} between each of the 5 quote styles, as an assignment, as a call argument followed by another line, and after a statement with a back-quoted name; (D) nesting depth 10/100/10^4 (thorough 10^5) of every bracket, unary operator, call, index, attribute, block; (D2) 27 wide or deep forms (incl. long expressions in the positions whose diagnostics mention them: for-in variable, iterable, assignment target, named argument, map key, callee) at 1500 and 24000 elements: the bytes allocated by the parse grow at most 64-fold; " +
 			"oracle: ParsePipeline returns a tree xor a PlError naming the script with 0 <= offset <= len and consistent line/column, never (nil,nil), never a position-less error; a rejected text offered again under another script name gives the same diagnostic naming that script; the exported lexer's items tile the source (gaps only blanks)",
 		Assumptions: []string{"a worker that dies or stops making progress is reported with the index of the text it was parsing"},
 		Run:            c05Run,
